@@ -98,7 +98,7 @@ def _summ(text):
     return text[-600:]
 
 
-def libfuzzer_campaign(rep, prop, mg, fz, seed, runs, max_len, out_env, corpus_dir=None, budget=1500, jobs=None, marker="ORACLE FAILURE"):
+def libfuzzer_campaign(rep, prop, mg, fz, seed, runs, max_len, out_env, corpus_dir=None, budget=1500, jobs=None, marker="ORACLE FAILURE", total_time=480):
     """parallel libFuzzer workers on a fresh corpus copy; a crash- artifact is the reproducible unit"""
     tmp = tempfile.mkdtemp(dir=proc.tmpdir())
     jobs = jobs or max(1, core.ncpu() - 2)
@@ -114,12 +114,13 @@ def libfuzzer_campaign(rep, prop, mg, fz, seed, runs, max_len, out_env, corpus_d
         e = dict(os.environ, ASAN_OPTIONS="detect_leaks=0:abort_on_error=1:allocator_may_return_null=1")
         e[out_env] = os.path.join(d, "fz.json")
         cmd = [fz, corpus, "-seed=%d" % (seed + j), "-runs=%d" % runs, "-max_len=%d" % max_len, "-use_value_profile=1",
-               "-artifact_prefix=" + d + "/", "-print_final_stats=1", "-timeout=30", "-rss_limit_mb=3000"]
+               "-artifact_prefix=" + d + "/", "-print_final_stats=1", "-timeout=30", "-rss_limit_mb=3000",
+               "-max_total_time=%d" % max(5, int(total_time))]        # stops gracefully (counters are written at exit); a time limit reached is not a verdict
         procs.append((d, subprocess.Popen(cmd, env=e, cwd=d, stdout=open(os.path.join(d, "log"), "wb"), stderr=subprocess.STDOUT)))
     crashes = 0
     for d, p in procs:
         try:
-            p.wait(timeout=budget)
+            p.wait(timeout=max(budget, total_time + 300))
         except subprocess.TimeoutExpired:
             p.kill()
             rep.notes.append("a libFuzzer worker exceeded its budget: inconclusive")
@@ -139,5 +140,5 @@ def libfuzzer_campaign(rep, prop, mg, fz, seed, runs, max_len, out_env, corpus_d
             text = open(os.path.join(d, "log"), "rb").read().decode("utf-8", "replace")
             line = [l for l in text.splitlines() if marker in l or "ERROR: AddressSanitizer" in l]
             rep.add_violation(core.Violation(prop, (line[0][:600] if line else "libFuzzer crash: " + text[-600:]), data, ext="bin"))
-    rep.coverage.setdefault("engines", []).append({"engine": "libFuzzer", "workers": jobs, "runs_per_worker": runs})
+    rep.coverage.setdefault("engines", []).append({"engine": "libFuzzer", "workers": jobs, "runs_per_worker_max": runs, "max_total_time_s": int(total_time)})
     shutil.rmtree(tmp, ignore_errors=True)
